@@ -7,7 +7,7 @@ call on a fresh matcher and in successive `match(..., expand=True)` extensions a
 import itertools
 
 from .. import env  # noqa: F401
-from .. import gen, build, mcase, oracles
+from .. import gen, build, mcase, oracles, monitors
 from ..mapmodel import MapModel
 
 ID = "C08"
@@ -23,7 +23,7 @@ ANCHORS = [("leuvenmapmatching/matcher/base.py", "BaseMatcher.match"),
            ("leuvenmapmatching/matcher/base.py", "BaseMatcher._match_non_emitting_states"),
            ("leuvenmapmatching/matcher/base.py", "LatticeColumn.set_delayed")]
 FLOORS = {"cut_sets_judged": 4000, "extensions_continuing_a_full_prefix": 4000, "extensions_after_early_stop": 200, "cuts_with_nonemitting_bridge": 400,
-          "multi_cuts": 1200, "with_width": 1000, "paths_identical": 3000}
+          "multi_cuts": 1200, "with_width": 1000, "paths_identical": 3000, "ne_filter_entries_compared_incremental": 3000}
 ASSUMPTIONS = ["index and best probability must be equal (1e-9 rel); the best paths must be equal unless they are exact ties: when the paths differ, "
                "both are re-scored (C02 oracle) and a difference is a tie iff both totals are equal to 1e-12 relative",
                "both matchers are built from one configuration dict"]
@@ -86,6 +86,12 @@ def check_case(ctx, case):
         c2 = build.canon(mt, r)
         ctx.evaluated()
         ctx.count("cut_sets_judged")
+        if cfg["non_emitting"] and not cfg["width"]:
+            # the incremental run must apply the same non-emitting filter as a one-shot run (search-space consistency)
+            v, nn = monitors.ne_filter_violations(mt, any_round=True)
+            ctx.count("ne_filter_entries_compared_incremental", nn)
+            for kind, text in v[:1]:
+                ctx.violation(f"C08:ne-filter:{kind}:incremental:{fam}", {**case, "cuts": [cut]}, f"cut {cut}: {text}")
         if len(cut) > 1:
             ctx.count("multi_cuts")
         if cfg["width"]:
